@@ -32,40 +32,15 @@ import mcnpref
 import t4eval
 from common import clist, cfloat, copt, cpair, cz, cn, cbool
 
+# the audited bundles of coq/Properties/C02.v (each a conjunction of the
+# individually stated theorems; see notes/C02.md for the members)
 THEOREMS = [
-    'C02_locus_sense_meaning',
-    'C02_every_card_locus_sense',
-    'C02_SO_S_SX_SY_SZ_locus_sense',
-    'C02_PX_PY_PZ_P_locus_sense',
-    'C02_CX_CY_CZ_C_X_C_Y_C_Z_locus_sense',
-    'C02_KX_KY_KZ_K_X_K_Y_K_Z_locus_sense',
-    'C02_K_sheet_locus_sense',
-    'C02_GQ_SQ_locus_sense',
-    'C02_TX_TY_TZ_locus_sense',
-    'C02_X_Y_Z_plane_cylinder_locus_sense',
-    'C02_X_Y_Z_cone_locus_sense',
-    'C02_P_three_points_locus_sense',
-    'C02_P_three_points_locus_partial',
-    'C02_orient_plane_ok',
-    'C02_sq_gq_consistent',
-    'C02_convert_any_axis',
-    'C02_C_K_any_axis_locus_sense',
-    'C02_inadmissible_cards_raise',
-    'C02_P_three_points_thresholded',
-    'C02_P_three_points_band_deviation',
-    'C02_parameter_count_behaviour',
-    'C02_large_selector',
-    'C02_number_items_spec',
-    'C02_numbered_ids_select_regions',
-    'C02_text_every_card_locus_sense',
-    'C02_split_surface_render',
-    'C02_to_float_denotes',
-    'C02_text_every_card_locus_sense_linked',
-    'C02_text_every_card_all_mnemonics_linked',
-    'C02_torus_tr_linked',
-    'C02_frame_form_sense_linked',
-    'C02_spec_sanity',
-    'C02_sense_value_sign',
+    'C02_family_cards',
+    'C02_family_three_point_planes',
+    'C02_family_counts_numbering',
+    'C02_family_text',
+    'C02_family_spec',
+    'C02_family_linked',
 ]
 
 TRUSTED = [
@@ -858,7 +833,7 @@ def run(res, tier, seed, proofs_ok):
 def _run(res, tier, seed, proofs_ok):
     rng = random.Random(seed)
     quick = tier == 'quick'
-    per_tag = 48 if quick else 450
+    per_tag = 44 if quick else 450
     n_bad = 420 if quick else 3500
     res.rule = ('one surface card per case: every mnemonic of the mcnp2cad '
                 'table in every form (4- and 9-entry P, K with/without sheet '
@@ -1145,6 +1120,7 @@ def _run(res, tier, seed, proofs_ok):
     import c02_text
     c02_text.run_ties(res, rng, quick)
     c02_text.run_link_tie(res, rng, quick)
+    c02_text.run_body_tie(res, rng, quick)
 
     # ---- 5. the Spec against the Python references ----
     spec_ties(res, rng, meta, quick)
@@ -1163,7 +1139,7 @@ def _run(res, tier, seed, proofs_ok):
         if mn == 'p' and len(prm) == 9 and in_p3_band(prm):
             res.count('sweep:p3-inside-the-band')
         status, detail = sweep_card(rng, mn, prm,
-                                    30 if quick else 120, 6 if quick else 25)
+                                    24 if quick else 120, 5 if quick else 25)
         swept[key] = status
         res.count('sweep:' + status)
         res.count('sweep-tag:' + tag)
